@@ -245,8 +245,17 @@ def check_expiry(s, t0, dur, direction, kind):
             if tfail is None:
                 bad.append(("no-failure", f"agent {ag} never announced FAILED although answers stopped at ~{t0} for {dur} ms"))
                 continue
-            if last is not None and not (last + T <= tfail <= last + T + 1 + DELTA_MS):
-                bad.append(("expiry-window", f"agent {ag}: last answer at {last}, FAILED at {tfail}: outside ({last + T}, {last + T + DELTA_MS}]"))
+            # the expiry instant is (some refresh of the selected pair's consent) + 30 s: the pair's selection, or one of
+            # the authenticated answers received since.  Which answers refresh is the code's business (answers to ordinary
+            # checks of other pairs right after selection do not); the statement bounds the failure by the LAST answer.
+            stamps = [int(m.group(1)) for e in s.events()
+                      for m in [re.match(rf"t=(\d+) {ag} selected ", e)] if m and int(m.group(1)) <= tfail]
+            stamps = stamps + [int(m.group(1)) for e in s.events() for m in [EV_RX.match(e)]
+                               if m and m.group(2) == ag and m.group(5) == "2" and int(m.group(1)) <= tfail]
+            if last is not None and (tfail > last + T + 1 + DELTA_MS or
+                                     not any(0 <= tfail - (x + T) <= 1 + DELTA_MS for x in stamps)):
+                bad.append(("expiry-window", f"agent {ag}: last answer at {last}, FAILED at {tfail}: later than {last + T + DELTA_MS} or not "
+                                             f"30 s after the pair's selection or any authenticated answer ({sorted(set(stamps))[-4:]})"))
             if tfail > t0 + T + 6000 + sc.TA + DELTA_MS:
                 bad.append(("expiry-bound", f"agent {ag} FAILED {tfail - t0} ms after the answers stopped (> 30 s + one check interval)"))
             st = s.op(f"send {ag} 1 1 aabb")[1]
